@@ -105,6 +105,8 @@ func main() {
 		runC12()
 	case "c18":
 		runC18()
+	case "pub":
+		runPub()
 	default:
 		fmt.Fprintln(os.Stderr, "unknown property", cmd)
 		os.Exit(2)
